@@ -45,7 +45,7 @@ package ed25519
 //@ func ECVRFVerify
 //@   property C16
 //@   # verification computes on local buffers only; the frame is assumed (curve arithmetic is outside the subset)
-//@   option frame=assumed
+//@   option frame=assumed globals=none
 //@   ensures [accept!assumed] result0 == @vrf_accept(old(bytes(pk)), old(bytes(pi)), old(bytes(m)))
 //@   ensures [err!assumed]    (result1 == nil) == @vrf_decodable(old(bytes(pi)))
 //@   ensures [rejecterr]      result1 != nil ==> !result0
@@ -53,12 +53,15 @@ package ed25519
 
 // SHA-512 based hashing to the curve / of four points: pure functions of their arguments, outside the subset
 // (hash.Hash state, local array slicing); they cannot panic on any input (fixed-size array copies only).
+// Re-entrancy (C16: prove and verify are functions of their inputs, also when calls overlap - the node verifies in
+// several goroutines while it proves): the VRF routines go through no package-level state except the byte-string
+// constants suite/one/two (never written). A structural frame obligation (option globals=...), decided on the SSA.
 //@ func hashToCurve
 //@   property C16
-//@   option trusted
+//@   option trusted globals=one,suite
 //@   modifies nothing
 
 //@ func hashPoints
 //@   property C16
-//@   option trusted
+//@   option trusted globals=suite,two
 //@   modifies nothing
